@@ -622,13 +622,42 @@ fn par_hash<T: Elem>(c: &dyn DynColl<T>, k: usize) -> String {
     }
 }
 
+/// What a worker checks about a handle of its own after rebasing it on the shared independent copy.
+fn rebased_ok<T: Elem>(y: &dyn DynColl<T>, before: &[T]) -> Option<String> {
+    let after: Vec<T> = y.iter().cloned().collect();
+    if after != before {
+        Some("contents-after-rebase".to_string())
+    } else if y.len() != before.len()
+        || (0..before.len() + 1).any(|i| y.get(i).is_some() != (i < before.len()))
+    {
+        Some("reads-after-rebase".to_string())
+    } else {
+        None
+    }
+}
+
 fn par_mix<T: Elem>(c: &dyn DynColl<T>, vs: &[T]) -> String {
     let k = vs.len();
-    // `b`: an independently allocated, not yet hashed copy of what `c` shows. While the workers rebase their private
-    // clones onto it, a helper thread hashes it and the main thread hashes `c` itself (whose nodes the clones share).
-    let base: Option<Boxed<T>> = if k > 0 && c.len() <= 4096 { c.fresh_copy() } else { None };
+    // `base`: an independently allocated, not yet hashed collection that shows what `c` shows except for one element.
+    // While the workers rebase handles of their own onto it, a helper thread hashes it and the main thread hashes `c`
+    // itself (whose nodes the workers' clones share).
+    let base: Option<Boxed<T>> = if k > 0 && c.len() <= 4096 {
+        c.fresh_copy().and_then(|mut b| {
+            let len = b.len();
+            if len > 0 {
+                if let Some(slot) = b.get_mut(len / 2) {
+                    *slot = vs[0].clone();
+                }
+                b.apply().ok()?;
+            }
+            Some(b)
+        })
+    } else {
+        None
+    };
     let barrier = Barrier::new(k + 1 + base.is_some() as usize);
-    type W = Result<(Hash256, Option<String>), Error>;
+    // (root printed for this thread, first failed self-check, root of an unmodified clone after its rebase)
+    type W = Result<(Hash256, Option<String>, Option<Hash256>), Error>;
     let (workers, own): (Vec<Option<W>>, Option<Hash256>) =
         std::thread::scope(|s| {
             let barrier = &barrier;
@@ -638,6 +667,24 @@ fn par_mix<T: Elem>(c: &dyn DynColl<T>, vs: &[T]) -> String {
                     s.spawn(move || {
                         barrier.wait();
                         catch_unwind(AssertUnwindSafe(|| -> W {
+                            let mut bad = None;
+                            let mut plain_root = None;
+                            // Work on handles of the thread's own that is never printed, only checked.
+                            // Odd threads, before they hash anything: an UNMODIFIED clone (all of its nodes are shared
+                            // with `c`, which the main thread is hashing right now) is rebased on the base; it must
+                            // show what it showed and hash to the root of `c`.
+                            if let (Some(b), 1) = (base, j % 2) {
+                                let mut y = c.clone_box();
+                                let before: Vec<T> = y.iter().cloned().collect();
+                                match y.rebase_on_dyn(&**b) {
+                                    Some(Ok(())) => {
+                                        bad = rebased_ok(&*y, &before);
+                                        plain_root = Some(y.root());
+                                    }
+                                    Some(Err(e)) => bad = Some(format!("rebase:{:?}", e).replace(' ', "")),
+                                    None => {}
+                                }
+                            }
                             let mut x = c.clone_box();
                             let len = x.len();
                             if len > 0 {
@@ -647,26 +694,23 @@ fn par_mix<T: Elem>(c: &dyn DynColl<T>, vs: &[T]) -> String {
                                 x.apply()?;
                             }
                             let r = x.root();
-                            // further work on the thread's own handle (never printed, only checked): extend it,
-                            // hash it, rebase it on the independent copy that is being hashed concurrently, and
-                            // make sure it still shows, and hashes to, what it did before the rebase
-                            let mut bad = None;
-                            if let Some(b) = base {
-                                if let Some(Ok(())) = x.push(vs[j].clone()) {
-                                    x.apply()?;
+                            // Even threads: a clone with the same write plus a push is hashed, then rebased on the
+                            // base (which the helper thread is hashing); it must show, and hash to, what it did.
+                            if let (Some(b), 0, None) = (base, j % 2, &bad) {
+                                let mut y = c.clone_box();
+                                if len > 0 {
+                                    if let Some(slot) = y.get_mut(j % len) {
+                                        *slot = vs[j].clone();
+                                    }
                                 }
-                                let r2 = x.root();
-                                let before: Vec<T> = x.iter().cloned().collect();
-                                match x.rebase_on_dyn(&**b) {
+                                let _ = y.push(vs[j].clone());
+                                y.apply()?;
+                                let r2 = y.root();
+                                let before: Vec<T> = y.iter().cloned().collect();
+                                match y.rebase_on_dyn(&**b) {
                                     Some(Ok(())) => {
-                                        let after: Vec<T> = x.iter().cloned().collect();
-                                        if after != before {
-                                            bad = Some("contents-after-rebase".to_string());
-                                        } else if x.len() != before.len()
-                                            || (0..before.len() + 1).any(|i| x.get(i).is_some() != (i < before.len()))
-                                        {
-                                            bad = Some("reads-after-rebase".to_string());
-                                        } else if x.root() != r2 {
+                                        bad = rebased_ok(&*y, &before);
+                                        if bad.is_none() && y.root() != r2 {
                                             bad = Some("root-after-rebase".to_string());
                                         }
                                     }
@@ -674,7 +718,7 @@ fn par_mix<T: Elem>(c: &dyn DynColl<T>, vs: &[T]) -> String {
                                     None => {}
                                 }
                             }
-                            Ok((r, bad))
+                            Ok((r, bad, plain_root))
                         }))
                         .ok()
                     })
@@ -692,16 +736,11 @@ fn par_mix<T: Elem>(c: &dyn DynColl<T>, vs: &[T]) -> String {
                 .into_iter()
                 .map(|h| h.join().ok().flatten())
                 .collect();
-            let helper_root = helper.map(|h| h.join().ok().flatten());
-            let own = match (own, helper_root) {
-                (Some(o), Some(Some(hr))) if hr != o => None, // the copy shows the same contents: same root
-                (Some(o), Some(None)) => { let _ = o; None }
-                (o, _) => o,
-            };
-            (workers, own)
+            let helper_ok = helper.map(|h| h.join().ok().flatten().is_some()).unwrap_or(true);
+            (workers, if helper_ok { own } else { None })
         });
     if own.is_none() || workers.iter().any(|r| r.is_none()) {
-        panic!("par_mix: a thread panicked (or the independent copy hashed differently)");
+        panic!("par_mix: a thread panicked");
     }
     let mut mism: Vec<String> = Vec::new();
     let mut parts: Vec<String> = workers
@@ -709,9 +748,11 @@ fn par_mix<T: Elem>(c: &dyn DynColl<T>, vs: &[T]) -> String {
         .flatten()
         .enumerate()
         .map(|(j, r)| match r {
-            Ok((h, bad)) => {
+            Ok((h, bad, plain_root)) => {
                 if let Some(b) = bad {
                     mism.push(format!("{}:{}", j, b));
+                } else if plain_root.is_some() && plain_root != own {
+                    mism.push(format!("{}:root-of-rebased-unmodified-clone", j));
                 }
                 hash_hex(&h)
             }
